@@ -95,6 +95,7 @@ def plan(tier, seed):
         for phase in ("first", "incremental"):
             for mode in ("fail", "kill_truncate"):
                 cases.append({"id": f"cbdt-{phase}-pngquant-binary-emoji_u41.png-{mode}", "kind": "fault", "fmt": "cbdt", "phase": phase, "fault": f"pngquant|emoji_u41.png|{mode}"})
+    cases += [{"id": f"vf-{op}", "kind": "vf-edit", "op": op} for op in VF_OPS]
     cases += [{"id": f"{seed}-hist{i}", "kind": "history", "i": i} for i in range(NHIST[tier])]
     return cases
 
@@ -387,8 +388,92 @@ def run_history(case):
     return res
 
 
+VF_OPS = ["remove", "rename", "modify-one-master", "add", "remove-then-add-back"]
+
+
+def vf_svg(m, k):
+    # master m (0 thin, 1 bold) of glyph k: same structure, other coordinates
+    w = 20 + 25 * m
+    return f'<svg xmlns="http://www.w3.org/2000/svg" viewBox="0 0 100 100"><rect x="{10 + 5 * k}" y="{10 + 3 * k}" width="{w}" height="{40 + 10 * m}" fill="#cc3300"/><path d="M{50 - w // 2},90 L50,{60 - 10 * m} L{50 + w // 2},90 Z" fill="#1122{33 + 11 * k}"/></svg>'
+
+
+def run_vf_edit(case):
+    """a multi-master (variable font) configuration on a re-used build directory: its intermediates are master UFOs,
+    not just files ninja tracks one by one"""
+    from vf.drive import cli
+
+    res = {"counters": {}, "violations": [], "tags": ["vf-edit", case["op"]]}
+    c = res["counters"]
+    root = common.mkscratch("c09v-")
+    try:
+        names = {0: "emoji_u1f600.svg", 1: "emoji_u1f601.svg", 2: "emoji_u42.svg"}
+        for m, mname in enumerate(("thin", "bold")):
+            (root / mname).mkdir()
+            for k, n in names.items():
+                (root / mname / n).write_text(vf_svg(m, k))
+        (root / "vf.toml").write_text(
+            'output_file = "VF.ttf"\ncolor_format = "glyf_colr_1"\nkeep_glyph_names = true\nreuse_tolerance = -1\n[axis.wght]\nname = "Weight"\ndefault = 400\n'
+            '[master.thin]\nstyle_name = "Thin"\nsrcs = ["thin/*.svg"]\n[master.thin.position]\nwght = 400\n'
+            '[master.bold]\nstyle_name = "Bold"\nsrcs = ["bold/*.svg"]\n[master.bold.position]\nwght = 700\n'
+        )
+        n_ev = [0]
+
+        def invoke(bdir):
+            n_ev[0] += 1
+            return cli.nanoemoji(["--build_dir", str(bdir), "vf.toml"], root, cli.env_for(events=root / f"ev{n_ev[0]}.jsonl", ninja_j=4), timeout=600)
+
+        b = root / "build"
+        rc0, out0 = invoke(b)
+        hist = [("build", rc0)]
+        if rc0 != 0:
+            res["error"] = "setup build failed: " + out0[-500:]
+            return res
+        before = cli.sha256(b / "VF.ttf")
+        time.sleep(0.02)
+        op = case["op"]
+        steps = [op] if op != "remove-then-add-back" else ["remove", "add-back"]
+        for st in steps:
+            for m, mname in enumerate(("thin", "bold")):
+                d = root / mname
+                if st == "remove":
+                    (d / names[2]).unlink()
+                elif st == "add-back":
+                    (d / names[2]).write_text(vf_svg(m, 2))
+                elif st == "rename":
+                    (d / names[1]).rename(d / "emoji_u1f605.svg")
+                elif st == "add":
+                    (d / "emoji_u43.svg").write_text(vf_svg(m, 3))
+                elif st == "modify-one-master" and m == 1:
+                    (d / names[0]).write_text(vf_svg(m, 0).replace('height="50"', 'height="35"'))
+            hist.append((st, None))
+            rc1, out1 = invoke(b)
+            hist.append(("rebuild", rc1))
+            time.sleep(0.02)
+        c["vf_edit_rebuilds"] = 1
+        final = cli.sha256(b / "VF.ttf")
+        clean_dir = root / "clean"
+        crc, cout = invoke(clean_dir)
+        clean = cli.sha256(clean_dir / "VF.ttf")
+        if crc != 0:
+            res["error"] = "clean build of the final inputs failed: " + cout[-500:]
+        elif rc1 != 0:
+            res["violations"].append({"what": f"rebuild of a variable font after '{op}' exits {rc1} although the same inputs build cleanly", "history": hist, "output": out1[:2500]})
+        elif final != clean:
+            from fontTools.ttLib import TTFont
+
+            go = (TTFont(str(b / "VF.ttf")).getGlyphOrder(), TTFont(str(clean_dir / "VF.ttf")).getGlyphOrder())
+            res["violations"].append({"what": "variable font after an edit and a rebuild differs from the clean build of the final inputs", "history": hist, "glyph_order_rebuilt": go[0], "glyph_order_clean": go[1]})
+        if final != before:
+            c["vf_edits_that_changed_the_font"] = 1
+        res["nontrivial"] = True
+        res["key"] = case["id"]
+    finally:
+        shutil.rmtree(root, ignore_errors=True)
+    return res
+
+
 def run_case(case):
-    return {"fault": run_fault, "edit": run_edit, "history": run_history}[case["kind"]](case)
+    return {"fault": run_fault, "edit": run_edit, "history": run_history, "vf-edit": run_vf_edit}[case["kind"]](case)
 
 
 def finish(agg):
@@ -401,7 +486,7 @@ def finish(agg):
         inc.append(f"only {fired} of {pts} enumerated fault points fired")
     if c.get("histories", 0) == 0:
         inc.append("no history ran")
-    for k in ("edit_rebuilds", "edits_that_changed_the_font", "quantisation_declined_in_rebuild"):
+    for k in ("edit_rebuilds", "edits_that_changed_the_font", "quantisation_declined_in_rebuild", "vf_edit_rebuilds", "vf_edits_that_changed_the_font"):
         if c.get(k, 0) == 0:
             inc.append(f"deciding branch never reached: {k}")
     notfired = sorted(r["id"] for r in agg["results"] if "not-fired" in (r.get("tags") or []))
